@@ -5,6 +5,7 @@ import (
 	"sort"
 	"strings"
 	"sync"
+	"time"
 
 	oerrors "github.com/orda-io/orda/client/pkg/errors"
 	"github.com/orda-io/orda/client/pkg/iface"
@@ -55,6 +56,7 @@ type c13entry struct {
 	before  map[string]string
 	after   map[string]string
 	errBase int // errors the handler had received before the judged request (an aborted first attempt)
+	torn    bool // the aborted first attempt failed at a WRITE (possibly between the two writes of a commit)
 }
 
 func otherType(t string, r interface{ Intn(int) int }) string {
@@ -226,6 +228,12 @@ func runC13(c *core.Case) *core.Result {
 			hmu.Lock()
 			n := nerr
 			hmu.Unlock()
+			for t := 0; t < 100 && n == 0 && pm == "" && bed.IsNilDatatype(other); t++ {
+				time.Sleep(10 * time.Millisecond) // a report that is due is awaited for a bounded time
+				hmu.Lock()
+				n = nerr
+				hmu.Unlock()
+			}
 			switch {
 			case pm != "":
 				earlyOpen = c.Violation("client-panic", "opening key %q a second time before the first sync panicked: %s", key, pm)
@@ -318,6 +326,13 @@ func runC13(c *core.Case) *core.Result {
 		if !e.ex.Refused() {
 			return c.Violation("illegal-entry-accepted", "%s of a %s on key state (exists=%v sameType=%v) was accepted by the server (response option %#x)", mode, typ, exists, sameType, e.ex.PackOf(key).GetOption())
 		}
+		for t := 0; t < 100 && e.ex.Out.Err == nil && len(errs) == 0; t++ {
+			// the handler may be called from a goroutine of the client: a report that is due is
+			// awaited for a bounded time (1 s) before its absence is a finding
+			time.Sleep(10 * time.Millisecond)
+			errs, _, _ = e.d.Handler()
+			errs = errs[e.errBase:]
+		}
 		if e.ex.Out.Err == nil && len(errs) == 0 {
 			return c.Violation("error-not-delivered", "the server refused the %s but the client's error handler was not called", mode)
 		}
@@ -382,6 +397,7 @@ func runC13(c *core.Case) *core.Result {
 			return nil
 		}
 		c.Count("aborted_entries", 1)
+		e.torn = pt[0] != "find"
 		if !e.ex.Refused() {
 			// a failed read of the log tail of an entry that pulls nothing can be harmless
 			c.Count("aborted_entry_answered_without_error", 1)
@@ -500,6 +516,14 @@ func runC13(c *core.Case) *core.Result {
 			}
 		}
 		doSync(e, true)
+		if e.torn && expectOK(exists, sameType) && e.ex.Out.Err == nil && e.ex.Refused() {
+			// after a commit that was cut between its writes the first retry may still be
+			// refused while the server clears the leftovers (DESIGN §11, C08c); the next one counts
+			c.Count("entry_retried_once_more_after_torn_commit", 1)
+			errs, _, _ := e.d.Handler()
+			e.errBase = len(errs)
+			doSync(e, true)
+		}
 		if res := judge(e, expectOK(exists, sameType), true); res != nil {
 			return res
 		}
@@ -550,6 +574,12 @@ func runC13(c *core.Case) *core.Result {
 			}
 		}
 		doSync(e, true)
+		if e.torn && expectOK(existsNow, same) && e.ex.Out.Err == nil && e.ex.Refused() {
+			c.Count("entry_retried_once_more_after_torn_commit", 1)
+			errs, _, _ := e.d.Handler()
+			e.errBase = len(errs)
+			doSync(e, true)
+		}
 		if res := judge(e, expectOK(existsNow, same), true); res != nil {
 			return res
 		}
@@ -602,6 +632,27 @@ func runC13(c *core.Case) *core.Result {
 			wantOK = 0
 		case !exists || sameType:
 			wantOK = n
+		}
+		if wantOK == n && okCount < n {
+			// every racer's entry is legal: one that lost the race with a refusal it may retry
+			// (the statement promises one datatype and serial-order outcomes, not that nobody
+			// ever has to ask twice) asks again, alone
+			for _, e := range entries {
+				if e.d.DT.GetState() == model.StateOfDatatype_SUBSCRIBED {
+					continue
+				}
+				c.Count("racing_entries_retried", 1)
+				doSync(e, false)
+				if !w.idle() {
+					return c.Inconclusive("idle")
+				}
+				if e.ex.Out.Panic != "" {
+					return c.Violation("server-panic", "ProcessPushPull panicked: %s", e.ex.Out.Panic)
+				}
+				if e.ex.Out.Err == nil && !e.ex.Out.TimedOut && !e.ex.Refused() && e.d.DT.GetState() == model.StateOfDatatype_SUBSCRIBED {
+					okCount++
+				}
+			}
 		}
 		if okCount != wantOK {
 			return c.Violation("race-outcome", "%d racing %s requests (exists=%v sameType=%v): %d succeeded, a serial order gives %d", n, mode, exists, sameType, okCount, wantOK)
